@@ -1,6 +1,7 @@
 package main
 
 import (
+	"go/types"
 	"strings"
 
 	"golang.org/x/tools/go/ssa"
@@ -127,6 +128,21 @@ func propC09(a *Analysis, r *Registry) {
 			skip := S.Not(reach)
 			lib := S.MakeFn("sort.Float64sAreSorted", env.MustParse("s.Xs"))
 			sub := map[AtomID]*RF{}
+			// sort.IsSorted(sort.Float64Slice(s.Xs)) is the same test
+			for _, sfc := range fc.BoundCallees(1) {
+				for _, c := range sfc.CallsTo("sort.IsSorted") {
+					mi, ok := c.Call.Args[0].(*ssa.MakeInterface)
+					if !ok {
+						continue
+					}
+					if nt, ok := mi.X.Type().(*types.Named); !ok || nt.Obj().Pkg() == nil || nt.Obj().Pkg().Path() != "sort" || nt.Obj().Name() != "Float64Slice" {
+						continue
+					}
+					if v := sfc.Val(c); sfc.Val(mi.X).Equal(env.MustParse("s.Xs")) && v.SingleAtom() != nil {
+						sub[v.SingleAtom().ID] = lib
+					}
+				}
+			}
 			for _, at := range skip.Atoms(true) {
 				if at.Kind != "fn" || len(at.Args) != 1 || !at.Args[0].Equal(env.MustParse("s.Xs")) {
 					continue
@@ -594,6 +610,19 @@ func propC09(a *Analysis, r *Registry) {
 					}
 					if sfc != fc && len(rv) > 0 && !sfc.Val(ia.X).Equal(fc.Val(rv[len(rv)-1].Results[0])) {
 						return // a helper's store into something other than the result
+					}
+					if sfc != fc {
+						// only a helper that is HANDED the slice fills it on this function's behalf; one
+						// that makes the slice it fills (Linspace under Logspace) has its own obligations
+						handed := false
+						for _, p := range sfc.Fn.Params {
+							if sfc.Val(p).Equal(sfc.Val(ia.X)) {
+								handed = true
+							}
+						}
+						if !handed {
+							return
+						}
 					}
 					n++
 					env := X.EnvFor(fn, names...)
